@@ -14,6 +14,10 @@ fn main() {
     println!("cargo:rerun-if-changed=csrc/model.c");
     println!("cargo:rerun-if-changed=csrc/shim/bpf/bpf_helpers.h");
     println!("cargo:rerun-if-changed=csrc/shim/bpf/bpf_tracing.h");
+    // VERIF_C_SANITIZE (set by the fuzz build only), e.g. "address,fuzzer-no-link": instrument the kernel program and the
+    // map model; undefined behaviour traps (no runtime needed)
+    println!("cargo:rerun-if-env-changed=VERIF_C_SANITIZE");
+    let san = std::env::var("VERIF_C_SANITIZE").unwrap_or_default();
     let common = ["-O1", "-g", "-fPIC", "-fno-omit-frame-pointer", "-Wno-unused-variable", "-Wno-unused-function"];
     let objs = [("wrap.c", "wrap.o"), ("model.c", "model.o")];
     for (c, o) in objs {
@@ -24,6 +28,7 @@ fn main() {
             .arg(manifest.join("csrc/shim"))
             .arg("-I")
             .arg("/repo/linux-ebpf")
+            .args(if san.is_empty() { vec![] } else { vec![format!("-fsanitize={}", san), "-fsanitize=undefined".to_string(), "-fsanitize-trap=undefined".to_string(), "-fno-sanitize=alignment".to_string()] })
             .arg("-c")
             .arg(manifest.join("csrc").join(c))
             .arg("-o")
